@@ -221,6 +221,24 @@ CaptureCases == {
        TupV(<<IntV(1), IntV(2)>>)),
   Case("capture-redeclare-decl", <<Set("x", H(1)), FnDecl("f", <<>>, WInt, <<Ret(V("x"))>>), Set("x", H(2)), TupE(<<CallE(V("f"), <<>>), V("x")>>)>>,
        TupV(<<IntV(1), IntV(2)>>)),
+  \* identity: inside its body a function's own name denotes THE function that was called (== is identity on functions
+  \* and cells): compared with the same function reached as an argument, through an alias, inside an array, in a value arm
+  Case("identity-own-name",
+       <<FnDecl("f", <<P("g", WAny)>>, WTup(<<WInt, WInt, WInt, WInt>>),
+                <<Set("m", Match(V("g"), <<ArmVal(<<V("f")>>, I(1)), ArmOther(I(0))>>)),
+                  Set("e", If(Bin("==", V("f"), V("g")), I(1), I(0))), Set("n", If(Bin("!=", V("f"), V("g")), I(1), I(0))),
+                  Set("a", If(Bin("==", ArrE(<<V("f")>>), ArrE(<<V("g")>>)), I(1), I(0))),
+                  Ret(TupE(<<V("e"), V("n"), V("m"), V("a")>>))>>),
+         FnDecl("other", <<P("g", WAny)>>, WInt, <<Ret(I(0))>>), Set("al", V("f")),
+         TupE(<<CallE(V("f"), <<V("f")>>), CallE(V("f"), <<V("al")>>), CallE(V("f"), <<V("other")>>), CallE(V("al"), <<V("f")>>)>>)>>,
+       TupV(<<TupV(<<IntV(1), IntV(0), IntV(1), IntV(1)>>), TupV(<<IntV(1), IntV(0), IntV(1), IntV(1)>>),
+              TupV(<<IntV(0), IntV(1), IntV(0), IntV(0)>>), TupV(<<IntV(1), IntV(0), IntV(1), IntV(1)>>)>>)),
+  Case("identity-returns-itself",
+       <<FnDecl("self", <<>>, WAny, <<Ret(V("self"))>>), Set("r", CallE(V("self"), <<>>)),
+         Set("e", If(Bin("==", V("r"), V("self")), I(1), I(0))), TupE(<<V("e"), V("e")>>)>>, T2(1, 1)),
+  Case("identity-cell",
+       <<Set("c", MutE(WInt, I(1))), FnDecl("k", <<P("d", WMut(WInt))>>, WInt, <<Ret(If(Bin("==", V("c"), V("d")), I(1), I(0)))>>),
+         TupE(<<CallE(V("k"), <<V("c")>>), CallE(V("k"), <<MutE(WInt, I(1))>>)>>)>>, T2(1, 0)),
   \* a value arm that lists a literal AND a captured non-constant name
   Case("capture-in-match-value-arm",
        <<FnDecl("mk", <<P("limit", WInt)>>, WFn(<<WInt>>, WInt),
